@@ -127,7 +127,15 @@ pub fn exec(line: &str, _model: &mut Model) -> Option<Exec> {
                     if let Some(p) = prim { bd = bd.primary_block(p.clone()); }
                     if let Some(h) = hdr { bd = bd.security_header(h); }
                     let mut obj = bd.build();
-                    (obj.create(t1), obj.create(t2), obj.create(t1))
+                    let first = (obj.create(t1), obj.create(t2), obj.create(t1));
+                    // ... and for a re-signed block: the same block number, other flags / another type / other data
+                    let mut t3 = t1.clone(); t3.block_control_flags ^= 0x10;
+                    let mut t4 = t1.clone(); t4.block_type = if t1.block_type == 192 { 193 } else { 192 };
+                    let mut fresh = |t: &CanonicalBlock| { let mut bd = IpptBuilder::default().scope_flags(flags); if let Some(p) = prim { bd = bd.primary_block(p.clone()); } if let Some(h) = hdr { bd = bd.security_header(h); } bd.build().create(t) };
+                    let (f3, f4) = (fresh(&t3), fresh(&t4));
+                    let (r3, r4) = (obj.create(&t3), obj.create(&t4));
+                    if (r3.clone(), r4.clone()) != (f3, f4) { return (first.0, first.1, r3); }
+                    first
                 });
                 match (&reused, &r1, &r2) {
                     (Some((a1, a2, a3)), Some(f1), Some(f2)) => { if (a1, a2, a3) != (f1, f2, f1) && e.oracle_fail.is_none() { e.oracle_fail = Some(format!("an IPPT object used for several targets in turn yields {} for the second target, a fresh object {}", clip(&hex(a2)), clip(&hex(f2)))); } }
